@@ -187,6 +187,136 @@ fn db_line(line: &str) -> String {
     res
 }
 
+/// Run `f` with fd 1 redirected to a scratch file (n2 prints warnings with println!).
+fn quiet_stdout<T>(f: impl FnOnce() -> T) -> T {
+    use std::io::Write;
+    use std::os::fd::AsRawFd;
+    std::io::stdout().flush().ok();
+    let null = std::fs::OpenOptions::new().write(true).open("/dev/null").unwrap();
+    let saved = unsafe { libc::dup(1) };
+    unsafe { libc::dup2(null.as_raw_fd(), 1) };
+    let r = f();
+    std::io::stdout().flush().ok();
+    unsafe {
+        libc::dup2(saved, 1);
+        libc::close(saved);
+    }
+    r
+}
+
+fn opt_hex(o: &Option<String>) -> String {
+    match o {
+        None => "~".to_string(),
+        Some(s) => hex(s.as_bytes()),
+    }
+}
+
+thread_local! {
+    static LOAD_DIR: std::cell::RefCell<Option<(std::path::PathBuf, std::collections::HashMap<String, Vec<u8>>)>> =
+        std::cell::RefCell::new(None);
+}
+
+/// load <name-hex> <text-hex> [<name-hex> <content-hex>]...   (include files live in one scratch
+/// dir per harness process; a file is rewritten only when its content changes)
+fn load_line(line: &str) -> String {
+    let w: Vec<String> = words(line).iter().map(|s| s.to_string()).collect();
+    LOAD_DIR.with(|d| {
+        let mut d = d.borrow_mut();
+        if d.is_none() {
+            let dir = std::env::temp_dir().join(format!(
+                "n2verif-load-{}-{}",
+                std::process::id(),
+                std::time::SystemTime::now()
+                    .duration_since(std::time::SystemTime::UNIX_EPOCH)
+                    .unwrap()
+                    .as_nanos()
+            ));
+            std::fs::create_dir_all(&dir).unwrap();
+            std::env::set_current_dir(&dir).unwrap();
+            *d = Some((dir, std::collections::HashMap::new()));
+        }
+        let (_, have) = d.as_mut().unwrap();
+        let mut want: std::collections::HashMap<String, Vec<u8>> = std::collections::HashMap::new();
+        let mut i = 2;
+        while i + 1 < w.len() {
+            want.insert(String::from_utf8_lossy(&unhex(&w[i])).into_owned(), unhex(&w[i + 1]));
+            i += 2;
+        }
+        let stale: Vec<String> = have.keys().filter(|k| !want.contains_key(*k)).cloned().collect();
+        for k in stale {
+            let _ = std::fs::remove_file(&k);
+            have.remove(&k);
+        }
+        for (name, content) in want {
+            if have.get(&name) != Some(&content) {
+                let p = std::path::Path::new(&name);
+                if let Some(parent) = p.parent() {
+                    if !parent.as_os_str().is_empty() {
+                        let _ = std::fs::create_dir_all(parent);
+                    }
+                }
+                let _ = std::fs::write(p, &content);
+                have.insert(name, content);
+            }
+        }
+    });
+    let name = String::from_utf8_lossy(&unhex(&w[0])).into_owned();
+    let text = unhex(&w[1]);
+    let res = quiet_stdout(|| {
+        guarded(move || match n2::verif::Session::load_text(&name, text) {
+            Err(e) => format!("err {}", hex(e.as_bytes())),
+            Ok(s) => {
+                let files = s.files();
+                let idx: std::collections::HashMap<&str, usize> =
+                    files.iter().enumerate().map(|(i, f)| (f.name.as_str(), i)).collect();
+                let ids = |v: &Vec<String>| {
+                    v.iter()
+                        .map(|n| idx[n.as_str()].to_string())
+                        .collect::<Vec<_>>()
+                        .join(",")
+                };
+                let mut parts: Vec<String> = Vec::new();
+                for b in s.builds() {
+                    let (f, l) = b.location.rsplit_once(':').unwrap();
+                    parts.push(format!(
+                        "B {}:{} ins={} e={} i={} o={} outs={} eo={} cmd={} desc={} depfile={} si={} rsp={} pool={} hs={} hp={}",
+                        hex(f.as_bytes()), l, ids(&b.ins), b.explicit_ins, b.implicit_ins, b.order_only_ins,
+                        ids(&b.outs), b.explicit_outs, opt_hex(&b.cmdline), opt_hex(&b.desc), opt_hex(&b.depfile),
+                        if b.parse_showincludes { 1 } else { 0 },
+                        match &b.rspfile { None => "~".to_string(), Some((p, c)) => format!("{}:{}", hex(p), hex(c.as_bytes())) },
+                        opt_hex(&b.pool), if b.hide_success { 1 } else { 0 }, if b.hide_progress { 1 } else { 0 }
+                    ));
+                }
+                for f in &files {
+                    parts.push(format!(
+                        "F {} in={} deps={}",
+                        hex(f.name.as_bytes()),
+                        f.input.map(|x| x.to_string()).unwrap_or_else(|| "~".to_string()),
+                        f.dependents.iter().map(|x| x.to_string()).collect::<Vec<_>>().join(",")
+                    ));
+                }
+                parts.push(format!(
+                    "P {}",
+                    s.pools().iter().map(|(n, d)| format!("{}={:x}", hex(n.as_bytes()), d)).collect::<Vec<_>>().join(",")
+                ));
+                parts.push(format!("D {}", ids(&s.defaults())));
+                parts.push(format!("BD {}", opt_hex(&s.builddir())));
+                format!("ok {}", parts.join(";"))
+            }
+        })
+    });
+    res
+}
+
+fn cleanup_load_dir() {
+    LOAD_DIR.with(|d| {
+        if let Some((dir, _)) = d.borrow_mut().take() {
+            let _ = std::env::set_current_dir("/");
+            let _ = std::fs::remove_dir_all(&dir);
+        }
+    });
+}
+
 fn main() {
     let args: Vec<String> = std::env::args().collect();
     let suite = args.get(1).map(|s| s.as_str()).unwrap_or("");
@@ -202,6 +332,7 @@ fn main() {
         "dedup" => dedup_line,
         "hist" => hist::hist_line,
         "db" => db_line,
+        "load" => load_line,
         _ => {
             eprintln!("unknown suite {suite}");
             std::process::exit(2);
@@ -217,4 +348,5 @@ fn main() {
         // keep the stream line-exact so that an abort identifies the offending case
         out.flush().unwrap();
     }
+    cleanup_load_dir();
 }
